@@ -213,16 +213,31 @@ class _K(object):
 
     @staticmethod
     def bad_code(rng, doc):
+        CODES = gen_doc.CODES()
+
         def pred(i, node, ep, sp, cur):
             dt, mn, mx = gen_doc.dtype_of(node)
-            return _present(cur) and node.codes and not node.external and node.usage != 'N' and _plain_site(i, node, ep, sp, cur, doc) and dt == 'ID'
+            return _present(cur) and (node.codes or node.external) and node.usage != 'N' and _plain_site(i, node, ep, sp, cur, doc) and dt == 'ID' \
+                and (not node.external or node.external in CODES)
         s = _sites(rng, doc, pred)
         if not s:
             return None
         i, node, ep, sp, cur = s
         dt, mn, mx = gen_doc.dtype_of(node)
-        for cand in ('ZZ', 'Z', 'QQQ', 'ZZZZ', 'Q9', 'X7X', 'ZQZQZ', 'Q', 'ZZZZZZ'):
-            if mn <= len(cand) <= mx and cand not in node.codes:
+        own = set(node.codes) | set(CODES.get(node.external, []) if node.external else [])
+        # "valid elsewhere, invalid here": values that occur earlier in the document, members of other code lists / code sets
+        seen_before = []
+        for (j, n2, e2, s2, c2) in element_sites(doc, None):
+            if j >= i:
+                break
+            if _present(c2) and (n2.codes or n2.external) and mn <= len(c2) <= mx and c2 not in own and c2.isalnum() and c2.isupper():
+                seen_before.append(c2)
+        cands = []
+        if seen_before and rng.random() < 0.6:
+            cands.append(rng.choice(seen_before))
+        cands += ['ZZ', 'Z', 'QQQ', 'ZZZZ', 'Q9', 'X7X', 'ZQZQZ', 'Q', 'ZZZZZZ']
+        for cand in cands:
+            if mn <= len(cand) <= mx and cand not in own:
                 v = cand
                 break
         else:
